@@ -201,6 +201,23 @@ def _equality_redundant(repo: Repo, f: FuncInfo, n: ast.Compare) -> bool:
     return outcome({"eq": True, "sub": True}) == outcome({"eq": False, "sub": True})
 
 
+def _equality_redundant_flat(repo: Repo, f: FuncInfo, n: ast.Compare) -> bool:
+    """the same question on the function with its private helpers analysed in place (the subtype test may sit in a helper:
+    `a == b or _is_sub(a, b)`)"""
+    if getattr(f, "flat_of", None) is not None:
+        return False
+    try:
+        spec = f.qn.split("::", 1)[1] if f.cls else f.qn
+        ff = L.fn(repo, spec)
+    except Exception:
+        return False
+    if ff is f or not getattr(ff, "inlined", None):
+        return False
+    twins = [x for x in ast.walk(ff.node) if isinstance(x, ast.Compare) and len(x.ops) == 1 and type(x.ops[0]) is type(n.ops[0])
+             and getattr(x, "lineno", None) == getattr(n, "lineno", None) and getattr(x, "col_offset", None) == getattr(n, "col_offset", None)]
+    return bool(twins) and all(_equality_redundant(repo, ff, x) for x in twins)
+
+
 def rule_conform(repo: Repo, rid: str = "C06.conform", only_funcs: Optional[Iterable[str]] = None, floor: int = 3) -> RuleResult:
     r = RuleResult(rid, "conformance of an object's type to a required type is decided by is_sub_type, never by ==/!= on types or type names",
                    "forall / fact checking range over the type and its subtypes")
@@ -213,7 +230,7 @@ def rule_conform(repo: Repo, rid: str = "C06.conform", only_funcs: Optional[Iter
                 a, b = _is_type_expr(repo, f, n.left), _is_type_expr(repo, f, n.comparators[0])
                 if a and b:
                     r.site(L.site(f, n, "type comparison"))
-                    if _equality_redundant(repo, f, n):
+                    if _equality_redundant(repo, f, n) or _equality_redundant_flat(repo, f, n):
                         r.ok({"function": f.qn, "test": unparse(n), "redundant_with": "is_sub_type of the same two types"})
                         continue
                     r.fail(Finding(rid, f, "type-equality", f"{unparse(n)} compares types for (in)equality: objects of a subtype are "
@@ -422,6 +439,7 @@ def rule_parentlink(repo: Repo) -> RuleResult:
     if not listparam:
         raise AnalysisError("parse_types: token list parameter not found")
     lp = listparam[0]
+    live = L.Guards(f, lambda e: None).reach({})        # (branches decided by flags that are constant where they are tested are not code that runs)
     for c in _ctor_calls(f, "PDDLType"):
         kw = {k.arg: k.value for k in c.keywords}
         parent = kw.get("parent", c.args[1] if len(c.args) > 1 else None)
@@ -429,6 +447,8 @@ def rule_parentlink(repo: Repo) -> RuleResult:
         if parent is None or name is None:
             continue
         node = g.node_containing(c)
+        if node is not None and node not in live:
+            continue
         in_loop = node is not None and g.loop_of.get(node) is not None
         ntr = p.trace(name)
         ptr = p.trace(parent)
